@@ -27,6 +27,10 @@ ASSUMPTIONS = [
 # ---------------------------------------------------------------------------------------------
 # item kinds
 # ---------------------------------------------------------------------------------------------
+def _clamp(cfg, value):
+    return min(value, cfg.limit)
+
+
 def _kinds():
     from cincoconfig import IntField, StringField
     return {
@@ -53,6 +57,16 @@ def _kinds():
             "raw": [1, "2"],
             "invalid": "x",
             "probe": ("4", 40),
+        },
+        "clamp": {
+            # the item validator reads its owning configuration: items taken from another configuration's list must be
+            # normalised again for this one (limit 5 here, 9 in the other configuration)
+            "field": lambda: IntField(validator=_clamp),
+            "other": lambda: IntField(),
+            "norm": lambda x: min(int(x), 5),
+            "raw": [1, "7", 8],
+            "invalid": "x",
+            "probe": ("9", 5),
         },
         "str": {
             "field": lambda: StringField(transform_case="lower", transform_strip=True, max_len=3),
@@ -93,6 +107,14 @@ DICT_KINDS["str-any"] = {
 
 
 # explicitly given AnyFields that carry validators: what is stored is what the validators return
+DICT_KINDS["str-clamp"] = {
+    "keys": ["a", " A ", "b"],
+    "vals": [1, "7", 8],
+    "knorm": lambda k: k.strip().lower(),
+    "vnorm": lambda v: None if v is None else min(int(v), 5),
+    "invalid_val": "x",
+    "probe": ((" Z ", "9"), ("z", 5)),
+}
 DICT_KINDS["anyv-anyv"] = {
     "keys": ["a", "A", "b"],
     "vals": [1, -2, 3],
@@ -117,6 +139,9 @@ def _dict_field(kind="str-int"):
     from cincoconfig import DictField, StringField, AnyField
     if kind == "anyv-anyv":
         return DictField(key_field=AnyField(validator=_any_key), value_field=AnyField(validator=_any_val))
+    if kind == "str-clamp":
+        from cincoconfig import IntField
+        return DictField(key_field=StringField(transform_case="lower", transform_strip=True, max_len=3), value_field=IntField(validator=_clamp))
     if kind == "str-any":
         return DictField(key_field=StringField(transform_case="lower", transform_strip=True, max_len=3))
     return _dict_field_int()
@@ -146,9 +171,12 @@ class ListWorld:
             schema.l = ListField(k["field"]())
         schema.m = ListField(k["field"]())
         schema.w = ListField(k["other"]())
+        from cincoconfig import IntField as _Int
+        schema.limit = _Int(default=5)
         self.schema = schema
         self.cfg = schema()
         self.cfg2 = schema()
+        self.cfg2.limit = 9
         if variant is None:
             self.cfg.l = []
         self.proxy = self.cfg.l          # with a variant: the default value as installed at construction, never assigned
@@ -179,12 +207,14 @@ class DictWorld:
         self.k = DICT_KINDS[_kind(kind)]
         schema = Schema()
         schema.d = _dict_field(_kind(kind))
+        schema.limit = IntField(default=5)
         if variant == "default":
             schema.d._default = dict
         schema.e = DictField(key_field=StringField(), value_field=IntField())
         self.schema = schema
         self.cfg = schema()
         self.cfg2 = schema()
+        self.cfg2.limit = 9
         if variant is None:
             self.cfg.d = {}
         self.proxy = self.cfg.d
@@ -248,6 +278,13 @@ def list_ops(kind):
         ops.append(["getslice", sl])
     for bad in ("a", V.F(1.0), None):
         ops.append(["setitem_badindex", bad, raw[0]])
+    for i in (0, -1, 1, 99):
+        ops.append(["setitem_idx", i, raw[0]])
+        ops.append(["setitem_idx", i, raw[1]])
+        ops.append(["getitem_idx", i])
+        ops.append(["delitem_idx", i])
+    ops.append(["insert_idx", 1, raw[1]])
+    ops.append(["setslice_idx", [0, 1], "list", [raw[1], raw[0]]])
     for n in (0, 2):
         ops.append(["mul", n])
         ops.append(["imul", n])
@@ -329,6 +366,16 @@ def _sl(s):
     return slice(*s)
 
 
+class Idx:
+    """an integer-like position that is not an int (numpy integers, ctypes, ...): only __index__"""
+
+    def __init__(self, n):
+        self.n = n
+
+    def __index__(self):
+        return self.n
+
+
 def apply_list(target, op, norm, resolve):
     """norm=None: the real proxy gets the raw argument; else the model gets normalised ones."""
     name = op[0]
@@ -337,8 +384,8 @@ def apply_list(target, op, norm, resolve):
     def nit(it):
         if norm is None:
             return it
-        if getattr(it, "item_field", None) is getattr(norm, "same_field", object()):
-            return list(it)        # a typed list of the very same item field already holds normal forms
+        if getattr(it, "item_field", None) is getattr(norm, "same_field", object()) and getattr(it, "cfg", None) is getattr(norm, "same_cfg", None):
+            return list(it)        # a typed list of the very same item field *of this configuration* already holds normal forms
         return [norm(x) for x in it]
     if name == "validate_identity":      # a whole-configuration validation pass leaves the value object in place
         if norm is None:
@@ -365,6 +412,19 @@ def apply_list(target, op, norm, resolve):
         return target + nit(dec(op[2]))
     if name == "setitem":
         target[op[1]] = nv(dec(op[2]))
+        return None
+    if name == "setitem_idx":
+        target[Idx(op[1])] = nv(dec(op[2]))
+        return None
+    if name == "getitem_idx":
+        return target[Idx(op[1])]
+    if name == "delitem_idx":
+        del target[Idx(op[1])]
+        return None
+    if name == "insert_idx":
+        return target.insert(Idx(op[1]), nv(dec(op[2])))
+    if name == "setslice_idx":
+        target[slice(Idx(op[1][0]), Idx(op[1][1]))] = nit(dec(op[3]))
         return None
     if name == "setitem_badindex":
         target[dec(op[1])] = nv(dec(op[2]))
@@ -551,9 +611,9 @@ def model_states(container, kind, maxlen):
 # jobs
 # ---------------------------------------------------------------------------------------------
 def bounds(tier):
-    return {"list_kinds": (["int", "str", "float", "scale"] if tier == "thorough" else ["int", "str", "scale"]) + ["int@default", "str@default-literal"],
-            "list_maxlen": {"int": 5 if tier == "thorough" else 3, "str": 6 if tier == "thorough" else 3, "float": 4, "scale": 2},
-            "dict_kinds": ["str-int", "str-any", "anyv-anyv", "str-int@default"], "dict_maxlen": 3 if tier == "thorough" else 2}
+    return {"list_kinds": (["int", "str", "float", "scale"] if tier == "thorough" else ["int", "str", "scale"]) + ["int@default", "str@default-literal", "clamp"],
+            "list_maxlen": {"clamp": 2, "int": 5 if tier == "thorough" else 3, "str": 6 if tier == "thorough" else 3, "float": 4, "scale": 2},
+            "dict_kinds": ["str-int", "str-any", "anyv-anyv", "str-int@default", "str-clamp"], "dict_maxlen": 3 if tier == "thorough" else 2}
 
 
 def jobs(tier):
@@ -620,6 +680,7 @@ def _check_transition(ctx, container, kind, hist, op):
     if container == "list":
         norm = lambda x: k["norm"](x)  # noqa
         norm.same_field = w.proxy.item_field
+        norm.same_cfg = w.cfg
         app = apply_list
         nm = norm
     else:
